@@ -331,20 +331,23 @@ class World:
 
         self.fe = fe
         app = self.fe_app = App()
-        app['db'] = self.db
-        app[CommonAiohttpAppKeys.CLIENT_SESSION] = self.session
-        app['n_tokens'] = self.n_tokens
-        app['instance_id'] = 'verif-iid'
-        app['hail_credentials'] = FakeCredentials()
-        app['default_region'] = 'us-central1'
-        app['frozen'] = False
-        app['feature_flags'] = {'compact_billing_tables': 1, 'oms_agent': 0, 'dockerhub_proxy': 0}
-        app['regions'] = {'us-central1': 1, 'us-east1': 2}
-        app['file_store'] = self.file_store
-        app['task_manager'] = Discarded(self, 'fe')
-        app['inst_coll_configs'] = await InstanceCollectionConfigs.create(self.db)
-        app['cancel_batch_state_changed'] = asyncio.Event()
-        app['delete_batch_state_changed'] = asyncio.Event()
+        self.fe_startup = await self._front_end_startup(fe, app)
+        if self.fe_startup != 'real':
+            # fall-back: the keys the real on_startup sets, as of the pinned tree (a monitor that depends on anything newer fails loudly)
+            app['db'] = self.db
+            app[CommonAiohttpAppKeys.CLIENT_SESSION] = self.session
+            app['n_tokens'] = self.n_tokens
+            app['instance_id'] = 'verif-iid'
+            app['hail_credentials'] = FakeCredentials()
+            app['default_region'] = 'us-central1'
+            app['frozen'] = False
+            app['feature_flags'] = {'compact_billing_tables': 1, 'oms_agent': 0, 'dockerhub_proxy': 0}
+            app['regions'] = {'us-central1': 1, 'us-east1': 2}
+            app['file_store'] = self.file_store
+            app['task_manager'] = Discarded(self, 'fe')
+            app['inst_coll_configs'] = await InstanceCollectionConfigs.create(self.db)
+            app['cancel_batch_state_changed'] = asyncio.Event()
+            app['delete_batch_state_changed'] = asyncio.Event()
 
         # ---- driver app ----------------------------------------------------------------------
         from batch.driver import main as dm
@@ -385,6 +388,47 @@ class World:
             self.run_background = keep_bg
         d['canceller'] = self.canceller
         return self
+
+    async def _front_end_startup(self, fe, app):
+        """run the service's own `on_startup` (so that whatever it puts into the app is there), with the outside world replaced:
+        HTTP session, database handle (the world's), credentials, cloud config, file store, background task manager"""
+        import types
+
+        db = self.db
+
+        class _DB:
+            def __new__(cls, *a, **k):
+                return db
+        real_init = db.async_init
+
+        async def _noop(*a, **k):
+            return None
+        try:
+            db.async_init = _noop
+            self._patch(fe, 'Database', _DB)
+            self._patch(fe.httpx, 'client_session', lambda *a, **k: self.session)
+            self._patch(fe, 'hail_credentials', lambda *a, **k: FakeCredentials())
+            self._patch(fe, 'get_gcp_config', lambda: types.SimpleNamespace(region='us-central1', project='verif', zone='us-central1-a'))
+            self._patch(fe, 'get_cloud_async_fs', lambda *a, **k: self.file_store)
+            self._patch(fe, 'FileStore', lambda *a, **k: self.file_store)
+            self._patch(fe.aiotools, 'BackgroundTaskManager', lambda *a, **k: Discarded(self, 'fe'))
+            keep = self.run_background
+            self.run_background = False
+            try:
+                await fe.on_startup(app)
+            finally:
+                self.run_background = keep
+            app['exit_stack'].pop_all()  # nothing of the above must be closed by the service's own clean-up
+            return 'real'
+        except Exception as e:  # pylint: disable=broad-except
+            for k in list(app.keys()) if hasattr(app, 'keys') else []:
+                try:
+                    del app[k]
+                except Exception:
+                    pass
+            return f'manual ({type(e).__name__}: {e})'
+        finally:
+            db.async_init = real_init
 
     async def shutdown(self):
         for t in self.bg_tasks:
